@@ -109,12 +109,29 @@ def prep_afqmc(
         mf = mf_or_cc
 
     mol = mf.mol
+    # pyscf does not guarantee that the occupied orbitals come first (e.g. ROHF with a
+    # degenerate open shell returns mo_occ = [2, 0, 1]); everything below takes the
+    # leading columns as occupied, so bring them to the front (the order within the
+    # occupied and virtual blocks is kept, as in pyscf's cc modules)
+    if isinstance(mf, scf.uhf.UHF):
+        mo_coeff = np.array(
+            [
+                np.asarray(mf.mo_coeff[s])[
+                    :, np.argsort(-np.asarray(mf.mo_occ[s]), kind="stable")
+                ]
+                for s in range(2)
+            ]
+        )
+    else:
+        mo_coeff = np.asarray(mf.mo_coeff)[
+            :, np.argsort(-np.asarray(mf.mo_occ), kind="stable")
+        ]
     # choose the orbital basis
     if basis_coeff is None:
         if isinstance(mf, scf.uhf.UHF):
-            basis_coeff = mf.mo_coeff[0]
+            basis_coeff = mo_coeff[0]
         else:
-            basis_coeff = mf.mo_coeff
+            basis_coeff = mo_coeff
 
     # calculate cholesky integrals
     print("# Calculating Cholesky integrals")
@@ -187,7 +204,7 @@ def prep_afqmc(
             q, r = np.linalg.qr(
                 basis_coeff[:, norb_frozen:]
                 .T.dot(overlap)
-                .dot(mf.mo_coeff[0][:, norb_frozen:])
+                .dot(mo_coeff[0][:, norb_frozen:])
             )
             sgn = np.sign(r.diagonal())
             q = np.einsum("ij,j->ij", q, sgn)
@@ -202,7 +219,7 @@ def prep_afqmc(
             q, r = np.linalg.qr(
                 basis_coeff[:, norb_frozen:]
                 .T.dot(overlap)
-                .dot(mf.mo_coeff[1][:, norb_frozen:])
+                .dot(mo_coeff[1][:, norb_frozen:])
             )
             sgn = np.sign(r.diagonal())
             q = np.einsum("ij,j->ij", q, sgn)
@@ -220,7 +237,7 @@ def prep_afqmc(
             q, r = np.linalg.qr(
                 basis_coeff[:, norb_frozen:]
                 .T.dot(overlap)
-                .dot(mf.mo_coeff[:, norb_frozen:])
+                .dot(mo_coeff[:, norb_frozen:])
             )
             sgn = np.sign(r.diagonal())
             q = np.einsum("ij,j->ij", q, sgn)
@@ -236,7 +253,7 @@ def prep_afqmc(
         q, _ = np.linalg.qr(
             basis_coeff[:, norb_frozen:]
             .T.dot(overlap)
-            .dot(mf.mo_coeff[:, norb_frozen:])
+            .dot(mo_coeff[:, norb_frozen:])
         )
         trial_coeffs[0] = q
         trial_coeffs[1] = q
